@@ -242,6 +242,13 @@ pub struct App {
     pub pub_bytes_running: Cell<u64>,
     pub pub_bytes_running_max: Cell<u64>,
     pub extra: RefCell<HashMap<String, String>>,
+    /// every packet the scripted peer wrote with `Peer::send`, with the sequence number of its
+    /// `PeerSent` event (universal monitors read the structured form)
+    pub peer_pkts: RefCell<Vec<(u64, R)>>,
+    /// the peer wrote bytes that are not (whole) logged packets: fragments, garbage, mutants
+    pub raw_writes: Cell<bool>,
+    /// the universal monitors have judged this connection already
+    pub judged: Cell<bool>,
 }
 
 impl App {
@@ -279,6 +286,9 @@ impl App {
             pub_bytes_running: Cell::new(0),
             pub_bytes_running_max: Cell::new(0),
             extra: RefCell::new(HashMap::new()),
+            peer_pkts: RefCell::new(Vec::new()),
+            raw_writes: Cell::new(false),
+            judged: Cell::new(false),
         })
     }
 
@@ -287,6 +297,14 @@ impl App {
         self.seq.set(s);
         self.log.borrow_mut().push((s, ev));
         s
+    }
+
+    /// the scripted peer writes packet `p` now (possibly in fragments): log it in readable and in
+    /// structured form
+    pub fn log_peer(&self, p: &R) -> u64 {
+        let seq = self.log(Ev::PeerSent(crate::map::brief(p)));
+        self.peer_pkts.borrow_mut().push((seq, p.clone()));
+        seq
     }
 
     pub fn next_call(&self) -> u32 {
